@@ -12,9 +12,10 @@ R_TOT = 64   # ratio sweep-scale / step-scale
 
 
 class LedgerObs(Observer):
-    def __init__(self, reactor, const):
+    def __init__(self, reactor, const, case=None):
         self.r = reactor
         self.const = const
+        self.case = case
         self.ev = []
         n = len(reactor.assemblies)
         ptot = float(sum(abs(a.total_power) for a in reactor.assemblies))
@@ -247,6 +248,37 @@ class LedgerObs(Observer):
             'tMin': qT(float(np.min(new.temp['coolant_int']))),
             'tMax': qT(float(np.max(new.temp['coolant_int'])))})
 
+    def expected_totals(self):
+        """Per-assembly power the input file assigns, integrated
+        independently of dassh.power: exact cell integrals of the CSV
+        polynomials, then the requested normalisation and scaling."""
+        from . import cases
+        c = self.case
+        r = self.r
+        if c is None or not c.get('power'):
+            return [self.qt(float(a.total_power)) for a in r.assemblies]
+        raw = {}
+        for aid, p in c['power'].items():
+            tot = 0.0
+            z = p['z']
+            for comp in ('pins', 'duct', 'cool'):
+                arr = p.get(comp)
+                if arr is None:
+                    continue
+                for ci in range(len(z) - 1):
+                    for co in arr[ci]:
+                        tot += cases.cell_integral(co, z[ci], z[ci + 1])
+            raw[int(aid)] = tot
+        total = sum(raw.values())
+        f = 1.0
+        if c.get('total_power') is not None:
+            f = (float(c['total_power']) / total) if total > 0 else 0.0
+        f *= float(c.get('power_scaling_factor') or 1.0)
+        out = []
+        for a in r.assemblies:
+            out.append(self.qt(raw.get(a.id + 1, 0.0) * f))
+        return out
+
     def end_step(self, k):
         self.ev.append({'e': 'EndStep', 'k': k})
 
@@ -263,4 +295,5 @@ class LedgerObs(Observer):
             'delivered': [self.qt(float(sum(a._power_delivered.values())))
                           for a in r.assemblies],
             'coreTotal': self.qt(float(r.total_power)),
+            'expected': self.expected_totals(),
             'clipped': int(self.clipped)})
